@@ -135,7 +135,7 @@ pub trait BlsTimeCrypt:
 
         let mut w = vec![0u8; msg.len()];
         reader.read(&mut w);
-        debug_assert!(!w.iter().all(|x| *x == 0));
+        debug_assert!(w.len() < 32 || !w.iter().all(|x| *x == 0));
         // W = HℓX(\alpha) ⊕ M
         byte_xor(msg, &w)
     }
